@@ -14,7 +14,7 @@ open Model
 open Driver_util
 
 let cases = ref 0 and hits = ref 0 and corr_fail = ref 0 and mon_fail = ref 0 and probes = ref 0
-let blocks_checked = ref 0
+let blocks_checked = ref 0 and refused_adds = ref 0
 let replayed = ref 0 and wire_checked = ref 0 and wire_errors = ref 0 and waits_compared = ref 0
 let distinct : (string, unit) Hashtbl.t = Hashtbl.create 64
 let twin_state : (string, string) Hashtbl.t = Hashtbl.create 16
@@ -194,6 +194,35 @@ let handle (lineno : int) (line : string) (r : reader) : unit =
     Printf.printf "FAIL mon prop=C12 line=%d detail=block-handed-to-the-listeners-twice-or-skipped:%s case=%s\n" lineno (get "deliv") case
   end;
   blocks_checked := !blocks_checked + List.length deliv;
+  (* the monitor of "answers Unavailable and changes nothing": an add_appointment that was answered `unavailable`
+     (and is the scenario's only submission of that appointment) has left neither a row nor a tracker *)
+  (let mdl = Array.of_list (split '/' (get "mdl")) in
+   let ints = (match Str.search_forward (Str.regexp "state=\\[\\([^]]*\\)\\]") line 0 with
+               | _ -> List.filter_map int_of_string_opt (split ' ' (Str.matched_group 1 line))
+               | exception Not_found -> []) in
+   let rec drop k l = if k <= 0 then l else (match l with [] -> [] | _ :: r -> drop (k - 1) r) in
+   let rows w l = (match l with [] -> ([], []) | n :: r ->
+                     let rec go k l acc = if k = 0 then (List.rev acc, l) else go (k - 1) (drop w l) ((match l with a :: b :: _ -> (a, b) | _ -> (-1, -1)) :: acc) in
+                     go n r []) in
+   let (_, after_users) = rows 4 ints in
+   let (apps, after_apps) = rows 8 after_users in
+   let (trks, _) = rows 6 after_apps in
+   Array.iter (fun tok ->
+     let re = Str.regexp "\\(late:\\)?api\\([0-9]+\\):A\\?unavailable" in
+     if Str.string_match re tok 0 then begin
+       let idx = int_of_string (Str.matched_group 2 tok) in
+       if idx < Array.length mdl then
+         match split ':' mdl.(idx) with
+         | ["A"; u; loc; _; _; _; _] ->
+             let same = List.length (List.filter (fun it -> match split ':' it with ["A"; u'; loc'; _; _; _; _] -> u' = u && loc' = loc | _ -> false) (Array.to_list mdl)) in
+             let key = (int_of_string loc, int_of_string u) in
+             incr refused_adds;
+             if same = 1 && (List.mem key apps || List.mem key trks) then begin
+               incr mon_fail;
+               Printf.printf "FAIL mon prop=C12 line=%d detail=answered-unavailable-but-the-work-was-taken:locator=%s,user=%s case=%s\n" lineno loc u case
+             end
+         | _ -> ()
+     end) r.toks);
   if n < 0 then Hashtbl.replace twin_state key state
   else begin
     let hit = get "hit" = "1" in
